@@ -88,5 +88,7 @@ TNodeUpdate ==
   /\ Chk("driver_updates_single_nodes_only_when_their_inputs_are_up_to_date", InputsUpToDate(Ev.n))
   /\ NodeUpdate(Ev.n) /\ Obs /\ Step
 
-TNext == TFlagOutdated \/ TNodeUpdate \/ TReload \/ TSetSeed \/ TRebuild \/ TAssign \/ TSetAuto \/ TUpdateAll \/ TUpdateTargets \/ TSave \/ TRestore
+TClearState == IsEvent("clear_state") /\ ClearState(Ev.n) /\ Obs /\ Step
+
+TNext == TClearState \/ TFlagOutdated \/ TNodeUpdate \/ TReload \/ TSetSeed \/ TRebuild \/ TAssign \/ TSetAuto \/ TUpdateAll \/ TUpdateTargets \/ TSave \/ TRestore
 =============================================================================
